@@ -5,7 +5,7 @@ import OpusProofs.RangeCoderPatchRun
 import OpusProofs.RangeCoderLockstep3
 import OpusProofs.RangeCoderFlags
 import OpusProofs.RangeCoderCodes
-import OpusProofs.SilkSymsEncFrame
+import OpusProofs.SilkSymsEncRoundTrip
 /-
   Property C08 — "Range coder: the decoder inverts the encoder symbol for symbol, within budget".
 
@@ -435,6 +435,67 @@ example : ∃ ops, encodeMonoFrame .nb 2 1 exampleIx examplePulses = .ok ops ∧
     (silkDecodeCall (monoCfg .nb 2) true {} (decInit ((encodeAll (List.replicate 40 0) 40 ops).buf.take
       (encodeAll (List.replicate 40 0) 40 ops).storage) (encodeAll (List.replicate 40 0) 40 ops).storage)).1.length = 4 := by
   refine ⟨(match encodeMonoFrame .nb 2 1 exampleIx examplePulses with | .ok o => o | _ => []), ?_⟩
+  decide +kernel
+
+open Opus.SilkSyms Opus.SilkSymsEnc Opus.SilkSymsEncProofs in
+/-- "What the SILK payload writer writes, `silk_Decode` reads back" — a WHOLE payload: mono or stereo, 1-3 frames
+    of 10 or 20 ms, with or without LBRR data, through the real range coder.
+    Encoder model: `packetOps` (OpusModel/SilkSymsEnc.lean, transcribing enc_API.c:344-397, 437-539): header
+    placeholder, LBRR-flags symbols, the LBRR frames of the previous packet (stereo: predictor and, if the side
+    channel has no LBRR frame, mid-only flag; conditional coding after a present LBRR frame), then per frame the
+    stereo predictor, the mid-only flag where the side VAD flag is clear, the mid frame and — unless mid-only — the
+    side frame, with `condCoding` INDEPENDENT for the first frame, INDEPENDENT_NO_LTP_SCALING for a side frame
+    after a mid-only frame, CONDITIONAL otherwise and the `ec_prevSignalType`/`ec_prevLagIndex` memory threaded
+    through LBRR and regular frames; finally `ec_enc_patch_initial_bits` with the VAD/LBRR flag bits.
+    Decoder model: C03's `silkCalls` (normal decoding: the LBRR data is read and dropped), untouched.
+    For EVERY input in the encoder's domain (`PacketOk`: flags are flags, every coded frame satisfies `IxOk` with
+    the VAD flag the header carries and `PulsesOk`, stereo indices in the domain of `silk_stereo_encode_pred`, a
+    mid-only flag only where the side VAD flag is clear), any buffer and ANY decoder history `st`: if `ec_enc_done`
+    leaves `error = 0`, the decoder run on the produced bytes reports exactly `packetEvs` — the header flags of both
+    channels, every LBRR frame's and every regular frame's indices (with the `condCoding` and the memory the
+    decoder handed over) and pulses, every predictor and mid-only flag, in order, and for every call the `rng` and
+    `ec_tell` the ENCODER had when it had written that call (`prefixOps`) — its error flag is clear, and it ends
+    with the encoder's final `rng` and `nbits_total`.  (`silk_syms_roundtrip_frame` is the special case mono,
+    one frame, no LBRR.  FEC decoding — `lostFlag = 2`, which reads only the LBRR frames — is not covered.) -/
+theorem silk_syms_roundtrip (buf : List Nat) (size : Nat) (cfg : Cfg) (pk : PacketIn) (st : SilkSt)
+    (hs : size ≤ buf.length) (hb : BytesOk buf) (hok : PacketOk cfg pk)
+    (hn : (encodeAll buf size (packetOps cfg pk)).nbitsTotal < 4294967296)
+    (herr : (encodeAll buf size (packetOps cfg pk)).error = 0) :
+    let e := encodeAll buf size (packetOps cfg pk)
+    let r := silkCalls cfg cfg.nfpp true st (decInit (e.buf.take e.storage) e.storage)
+    r.1 = packetEvs cfg pk (fun j => ((encRun (encInit buf size) (prefixOps cfg pk j)).rng,
+      tell (encRun (encInit buf size) (prefixOps cfg pk j)))) ∧
+    r.2.2.error = 0 ∧ r.2.2.rng = (encRun (encInit buf size) (packetOps cfg pk)).rng ∧
+    r.2.2.nbitsTotal = (encRun (encInit buf size) (packetOps cfg pk)).nbitsTotal :=
+  silk_syms_roundtrip_all buf size cfg pk st hs hb hok hn herr
+
+/-- NB, 10 ms, stereo, two frames per packet.  LBRR data: mid frame 0 and 1 (the second coded conditionally),
+    side frame 1 only (so frame 0 carries an LBRR mid-only flag).  Regular frames: frame 0 mid-only (side VAD 0),
+    frame 1 with a side frame coded INDEPENDENT_NO_LTP_SCALING; the mid frame 1 conditionally with a delta lag. -/
+def exampleCfg : Opus.SilkSyms.Cfg := { rate := .nb, nCh := 2, nfpp := 2, nbSubfr := 2, lostFlag := 0 }
+
+def exampleIxOf (sig cc lag seed : Nat) : Opus.SilkSyms.Indices :=
+  { signalType := sig, quantOffsetType := seed % 2, gains := [if cc = 2 then 30 else 50, 5], nlsf0 := 17 + seed, nlsfRes := [0, 3, -10, 10, 4, -4, 1, 0, -1, 2], interp := 4, lagIndex := if sig = 2 then lag else 0, contourIndex := if sig = 2 then 2 else 0, perIndex := if sig = 2 then 1 else 0, ltp := if sig = 2 then [15, 0] else [], ltpScale := if sig = 2 ∧ cc = 0 then 2 else 0, seed := seed % 4 }
+
+def examplePulsesOf (k : Nat) : List Int :=
+  (List.range 80).map (fun (i : Nat) => if (i + k) % 13 = 0 then ((i : Int) % 7 - 3) * (if i < 16 then 9 else 1) else 0)
+
+def examplePacket : Opus.SilkSymsEnc.PacketIn :=
+  { ch0 := { vad := [1, 1], lbrrFlags := [1, 1], lbrr := [⟨exampleIxOf 2 0 100 1, examplePulsesOf 1⟩, ⟨exampleIxOf 2 2 105 2, examplePulsesOf 2⟩], frames := [⟨exampleIxOf 2 0 90 3, examplePulsesOf 3⟩, ⟨exampleIxOf 2 2 93 0, examplePulsesOf 4⟩], prev := {} },
+    ch1 := { vad := [0, 1], lbrrFlags := [0, 1], lbrr := [default, ⟨exampleIxOf 1 0 0 1, examplePulsesOf 5⟩], frames := [default, ⟨exampleIxOf 2 1 40 1, examplePulsesOf 7⟩], prev := {} },
+    predIx := [[1, 2, 3, 2, 4, 1], [0, 0, 4, 2, 1, 0]], midOnly := [1, 0], lbrrPredIx := [[2, 1, 0, 0, 3, 4], [1, 1, 1, 1, 1, 1]], lbrrMidOnly := [1, 0] }
+
+open Opus.SilkSyms Opus.SilkSymsEnc Opus.SilkSymsEncProofs in
+example : PacketOk exampleCfg examplePacket :=
+  ⟨by decide, by decide, by decide, by decide, by decide +kernel, by decide +kernel, by decide +kernel,
+   by decide +kernel, by decide +kernel, by decide +kernel⟩
+
+open Opus.SilkSyms Opus.SilkSymsEnc Opus.SilkSymsEncProofs in
+example : (packetOps exampleCfg examplePacket).length = 496 ∧
+    (encodeAll (List.replicate 200 0) 200 (packetOps exampleCfg examplePacket)).error = 0 ∧
+    (silkCalls exampleCfg 2 true {} (decInit ((encodeAll (List.replicate 200 0) 200 (packetOps exampleCfg examplePacket)).buf.take
+      (encodeAll (List.replicate 200 0) 200 (packetOps exampleCfg examplePacket)).storage)
+      (encodeAll (List.replicate 200 0) 200 (packetOps exampleCfg examplePacket)).storage)).1.length = 22 := by
   decide +kernel
 
 end OpusProps.C08
